@@ -23,6 +23,10 @@ def inputs_for(torch, e, seed):
     if not e.has("bounded01") and not e.has("discrete"):
         outs.append(("scaled x4", x * 4.0))
         outs.append(("offset +6", x * 0.5 + 6.0))
+        if e.kind in ("dist", "flow"):
+            # a dozen units out: densities around exp(-150) - far below the single-precision range, their
+            # logarithms are ordinary numbers
+            outs.append(("offset +12", x * 0.5 + 12.0))
         if e.has("noparams") and x.dim() == 2:
             g = torch.linspace(-15.0, 15.0, 6 * x.shape[1]).reshape(6, -1)
             outs.append(("grid -15..15", g))
